@@ -240,6 +240,8 @@ type (
 
 func (t *TerminalParamDetails) parse(count uint8, body []byte) error {
 	index := 0
+	// 复用对象时不保留上一次解析的参数 只保留自定义的解析前回调
+	*t = TerminalParamDetails{ParamParseBeforeFunc: t.ParamParseBeforeFunc}
 	if len(t.OtherContent) == 0 {
 		t.OtherContent = make(map[uint32]ParamContent[[]byte])
 	}
